@@ -574,7 +574,11 @@ class Interp:
             elif isinstance(bv, TupleVal) or bv is None:
                 continue
             else:
-                bases.append(self.opaque_class(ast.unparse(b)))
+                txt = ast.unparse(b)
+                if txt.split(".")[-1].startswith(("Array[", "NDArray[")) and hasattr(self, "ndarray_class"):
+                    bases.append(self.ndarray_class)      # numpy.typing aliases stand for numpy.ndarray
+                else:
+                    bases.append(self.opaque_class(txt))
         meta = None
         for kw in st.keywords:
             if kw.arg == "metaclass":
@@ -1042,6 +1046,34 @@ class Interp:
         return s
 
     def e_DictComp(self, ctx, env, n):
+        from . import pybuiltins as PB
+        from . import builtins_ as BB
+        if len(n.generators) == 1:
+            g = n.generators[0]
+            it = self.eval(ctx, env, g.iter)
+            if isinstance(it, PB.MapItems) and not it.keys_only:
+                # {k: v for k, v in m.items() if cond(k, v)}: filtered copy of a symbolic map (closure form)
+                t = g.target
+                if not (isinstance(t, ast.Tuple) and len(t.elts) == 2 and all(isinstance(e, ast.Name) for e in t.elts)
+                        and isinstance(n.key, ast.Name) and n.key.id == t.elts[0].id
+                        and isinstance(n.value, ast.Name) and n.value.id == t.elts[1].id):
+                    raise Unsupported(f"UNSUPPORTED {ctx.where} dict comprehension over a symbolic map beyond the filtered-copy idiom")
+                old = it.m.lookup
+                interp = self
+                kn, vn = t.elts[0].id, t.elts[1].id
+                ifs = list(g.ifs)
+
+                def lookup(q, old=old):
+                    p0, v0 = old(q)
+                    e2 = Env(env.module, parent=env, func=None)
+                    e2.vars[kn], e2.vars[vn] = q, v0
+                    cond = z3.BoolVal(True)
+                    for c in ifs:
+                        cv = interp.eval(ctx, e2, c)
+                        cond = z3.And(cond, BB.zbool(cv) if not isinstance(cv, bool) else z3.BoolVal(cv))
+                    return smt.simp(z3.And(p0, cond)), v0
+                from .values import MapVal
+                return MapVal(lookup, "filtered")
         d = DictVal()
         cenv = Env(env.module, parent=env, func=None)
 
